@@ -184,12 +184,25 @@ Proof.
   destruct (N.eqb_spec k0 k); [contradiction|apply IH; exact H].
 Qed.
 
+Lemma abort1_absent c tx0 tx : aget (pending c) tx = None -> aget (pending (fst (abort1 c tx0))) tx = None.
+Proof.
+  intros H. unfold abort1. destruct (aget (pending c) tx0); cbn [fst pending]; [|exact H].
+  rewrite aget_adel. destruct (tx0 =? tx); [reflexivity|exact H].
+Qed.
+Lemma abort_all_absent order : forall c tx, aget (pending c) tx = None ->
+  aget (pending (fst (abort_all c order))) tx = None.
+Proof.
+  induction order as [|t r IH]; intros c tx H; cbn [abort_all]; [exact H|].
+  pose proof (abort1_absent c t tx H) as H1. destruct (abort1 c t) as [c1 w1]. cbn [fst] in H1.
+  pose proof (IH c1 tx H1) as H2. destruct (abort_all c1 r) as [c2 w2]. exact H2.
+Qed.
+
 (* a transaction that is not pending stays not pending, and nothing can be done to it, unless it
    is begun again *)
 Lemma step_absent now c s tx : aget (pending c) tx = None -> begins tx s = false ->
   aget (pending (fst (fst (step now c s)))) tx = None
   /\ (targets tx s = true -> snd (step now c s) = [1; 1])
-  /\ (forall t, s = Timeouts t -> ~ In tx (tl (snd (step now c s)))).
+  /\ (forall t o, s = Timeouts t o -> ~ In tx (tl (snd (step now c s)))).
 Proof.
   intros H Hb. destruct s; cbn [step begins targets] in *.
   - (* Begin *) cbn [fst snd pending]. rewrite aget_aset, Hb. repeat split; [exact H|discriminate|discriminate].
@@ -197,7 +210,7 @@ Proof.
   - (* Vote *)
     assert (G: forall (c' : coord) (w : list tentry) (o : step_out), aget (pending c') tx = None ->
                aget (pending (fst (fst (c', w, o)))) tx = None /\ (false = true -> snd (c', w, o) = [1; 1])
-               /\ (forall t, Vote tx0 shard v = Timeouts t -> ~ In tx (tl (snd (c', w, o)))))
+               /\ (forall t o', Vote tx0 shard v = Timeouts t o' -> ~ In tx (tl (snd (c', w, o)))))
       by (intros; repeat split; [assumption|discriminate|discriminate]).
     destruct (aget (pending c) tx0) as [t|] eqn:E; [|apply G; exact H].
     destruct (negb (phase t =? PREPARING)); [apply G; exact H|].
@@ -231,8 +244,11 @@ Proof.
       repeat match goal with |- context [if ?b then _ else _] => destruct b end; cbn [fst snd pending];
         repeat split; try exact H; try exact K; try discriminate.
   - (* Timeouts *)
-    cbn [fst snd pending tl]. repeat split; [apply aget_filter_none; exact H|discriminate|].
-    intros t _ Hin. apply in_sort_N in Hin. apply in_map_iff in Hin as ([k v] & Ek & Hin). cbn in Ek. subst k.
+    match goal with |- context [if ?b then _ else _] => destruct b end.
+    { cbn [fst snd tl]. repeat split; [exact H|discriminate|]. intros t o _ []. }
+    pose proof (abort_all_absent order c tx H) as HA. destruct (abort_all c order) as [c2 w2].
+    cbn [fst snd pending tl] in *. repeat split; [exact HA|discriminate|].
+    intros t o _ Hin. apply in_sort_N in Hin. apply in_map_iff in Hin as ([k v] & Ek & Hin). cbn in Ek. subst k.
     apply filter_In in Hin as [Hin _]. apply (aget_none_notin _ _ H). apply in_map_iff. exists (tx, v). split; [reflexivity|exact Hin].
 Qed.
 
@@ -247,7 +263,7 @@ Fixpoint replies (now : N) (c : coord) (ss : list step_in) : list (step_in * ste
 Lemma absent_forever : forall ss now c tx, aget (pending c) tx = None ->
   forallb (fun s => negb (begins tx s)) ss = true ->
   forall s out, In (s, out) (replies now c ss) ->
-    (targets tx s = true -> out = [1; 1]) /\ (forall t, s = Timeouts t -> ~ In tx (tl out)).
+    (targets tx s = true -> out = [1; 1]) /\ (forall t o, s = Timeouts t o -> ~ In tx (tl out)).
 Proof.
   induction ss as [|s0 ss IH]; intros now c tx H Hb s out Hin; cbn [replies] in Hin; [contradiction|].
   cbn [forallb] in Hb. apply andb_true_iff in Hb as [Hb1 Hb2].
@@ -260,6 +276,77 @@ Proof.
 Qed.
 
 (* ======================================================================== *)
+(* ---- the timeout sweeper logs every abort it decides ---- *)
+Lemma aget_in_some {V} (l : list (N * V)) k : In k (map fst l) -> aget l k <> None.
+Proof. intros Hin E. exact (aget_none_notin l k E Hin). Qed.
+
+Lemma abort1_logs c tx : aget (pending c) tx <> None -> In (TComplete tx false) (snd (abort1 c tx)).
+Proof.
+  intros H. unfold abort1. destruct (aget (pending c) tx); [|contradiction].
+  cbn [snd]. right. left. reflexivity.
+Qed.
+Lemma abort1_removes c tx : aget (pending (fst (abort1 c tx))) tx = None.
+Proof.
+  unfold abort1. destruct (aget (pending c) tx) eqn:E; cbn [fst pending]; [|exact E].
+  rewrite aget_adel, N.eqb_refl. reflexivity.
+Qed.
+Lemma abort1_other c t tx : t <> tx -> aget (pending (fst (abort1 c t))) tx = aget (pending c) tx.
+Proof.
+  intros Hne. unfold abort1. destruct (aget (pending c) t); cbn [fst pending]; [|reflexivity].
+  rewrite aget_adel. destruct (N.eqb_spec t tx); [contradiction|reflexivity].
+Qed.
+Lemma abort_all_logs order : forall c tx, In tx order -> aget (pending c) tx <> None ->
+  In (TComplete tx false) (snd (abort_all c order)) /\ aget (pending (fst (abort_all c order))) tx = None.
+Proof.
+  induction order as [|t r IH]; intros c tx Hin Hp; [destruct Hin|]. cbn [abort_all].
+  destruct (N.eq_dec t tx) as [->|Hne].
+  - pose proof (abort1_logs c tx Hp) as L1. pose proof (abort1_removes c tx) as R1.
+    destruct (abort1 c tx) as [c1 w1]. cbn [fst snd] in *.
+    pose proof (abort_all_absent r c1 tx R1) as R2. destruct (abort_all c1 r) as [c2 w2]. cbn [fst snd] in *.
+    split; [apply in_or_app; left; exact L1|exact R2].
+  - destruct Hin as [E|Hin]; [contradiction|].
+    pose proof (abort1_other c t tx Hne) as O1. destruct (abort1 c t) as [c1 w1]. cbn [fst] in O1.
+    assert (Hp1: aget (pending c1) tx <> None) by (rewrite O1; exact Hp).
+    destruct (IH c1 tx Hin Hp1) as [L2 R2]. destruct (abort_all c1 r) as [c2 w2]. cbn [fst snd] in *.
+    split; [apply in_or_app; right; exact L2|exact R2].
+Qed.
+Lemma abort_all_no_begin order : forall c e, In e (snd (abort_all c order)) -> forall tx, is_begin tx e = false.
+Proof.
+  induction order as [|t r IH]; intros c e Hin tx; cbn [abort_all] in Hin; [destruct Hin|].
+  assert (A1: forall e', In e' (snd (abort1 c t)) -> is_begin tx e' = false).
+  { unfold abort1. destruct (aget (pending c) t); cbn [snd]; intros e' He'; [|destruct He'].
+    destruct He' as [<-|[<-|[]]]; reflexivity. }
+  destruct (abort1 c t) as [c1 w1]. cbn [snd] in A1. specialize (IH c1).
+  destruct (abort_all c1 r) as [c2 w2]. cbn [snd] in *.
+  apply in_app_or in Hin as [Hin|Hin]; [apply A1; exact Hin|apply (IH e Hin)].
+Qed.
+
+(* every id the sweep reports has left the pending table and its abort is in the records the call
+   wrote: phase change to Aborting, then TxComplete{Aborted} *)
+Theorem timed_out_is_logged now c t order c' w out tx :
+  step now c (Timeouts t order) = (c', w, out) -> In tx (tl out) ->
+  In (TComplete tx false) w /\ aget (pending c') tx = None /\ (forall e, In e w -> forall x, is_begin x e = false).
+Proof.
+  cbn [step]. intros H Hin.
+  match type of H with context [if negb ?b then _ else _] => destruct b eqn:Ess end; cbn [negb] in H.
+  2:{ inversion H; subst. destruct Hin. }
+  assert (Hord: In tx order /\ aget (pending c) tx <> None).
+  { assert (Ho: out = 3 :: sort_N (map fst (filter (fun p => timeout (snd p) <? now - started (snd p)) (pending c))))
+      by (destruct (abort_all c order); inversion H; reflexivity).
+    rewrite Ho in Hin. cbn [tl] in Hin. apply in_sort_N in Hin.
+    split.
+    - unfold same_set in Ess. apply andb_true_iff in Ess as [Ess _]. apply andb_true_iff in Ess as [_ Ess].
+      rewrite forallb_forall in Ess. specialize (Ess tx Hin). apply existsb_exists in Ess as (y & Hy & E).
+      apply N.eqb_eq in E. subst y. exact Hy.
+    - apply aget_in_some. apply in_map_iff in Hin as ([k v] & Ek & Hf). cbn in Ek. subst k.
+      apply filter_In in Hf as [Hf _]. apply in_map_iff. exists (tx, v). split; [reflexivity|exact Hf]. }
+  destruct Hord as [Hio Hp].
+  destruct (abort_all_logs order c tx Hio Hp) as [L R].
+  pose proof (abort_all_no_begin order c) as NB.
+  destruct (abort_all c order) as [c2 w2]. cbn [fst snd] in *. inversion H; subst.
+  split; [exact L|]. split; [exact R|]. intros e He x. apply (NB e He x).
+Qed.
+
 Lemma forallb_firstn {A} (f : A -> bool) (l : list A) m : forallb f l = true -> forallb f (firstn m l) = true.
 Proof.
   revert m. induction l as [|x l IH]; intros m H; destruct m; cbn in *; try reflexivity.
@@ -312,7 +399,7 @@ Theorem outcome_never_reversed : forall now ES k i tx c0,
     aget (pending (co d)) tx = None /\
     forall ss, forallb (fun s => negb (begins tx s)) ss = true ->
       forall s out, In (s, out) (replies now (co d) ss) ->
-        (targets tx s = true -> out = [1; 1]) /\ (forall t, s = Timeouts t -> ~ In tx (tl out)).
+        (targets tx s = true -> out = [1; 1]) /\ (forall t o, s = Timeouts t o -> ~ In tx (tl out)).
 Proof.
   intros now ES k i tx c0 Hn Hk Hnb.
   rewrite restart_any_byte. eexists. eexists. split; [reflexivity|]. cbn [co].
@@ -325,6 +412,45 @@ Proof.
     rewrite scan_absent; [reflexivity|apply scan_complete_removes|].
     apply forallb_firstn. exact Hnb. }
   split; [exact Habs|]. intros ss Hss s out Hin. exact (absent_forever ss now _ tx Habs Hss s out Hin).
+Qed.
+
+(* a timed-out transaction is never committed after a restart: once the sweep has returned (its
+   records w lie inside the surviving prefix), whatever was logged later and wherever the crash
+   hits, the restarted coordinator does not hold the transaction and nothing can be done to it *)
+Lemma bytes_upto_mono es : forall j j', (j <= j')%nat ->
+  (bytes_upto ser crc true es j <= bytes_upto ser crc true es j')%nat.
+Proof.
+  induction es as [|e es IH]; intros [|j] [|j'] H; cbn [bytes_upto]; try lia.
+  specialize (IH j j'). lia.
+Qed.
+Theorem timed_out_never_committed : forall now0 c t order c' w out tx,
+  step now0 c (Timeouts t order) = (c', w, out) -> In tx (tl out) ->
+  forall now ES0 ES1 k,
+  (bytes_upto ser crc true (ES0 ++ w ++ ES1) (length (ES0 ++ w)) <= k)%nat ->
+  forallb (fun e => negb (is_begin tx e)) ES1 = true ->
+  exists d stats, drestart now (firstn k (lb (ES0 ++ w ++ ES1))) = Some (d, stats) /\
+    aget (pending (co d)) tx = None /\
+    forall ss, forallb (fun s => negb (begins tx s)) ss = true ->
+      forall s out, In (s, out) (replies now (co d) ss) ->
+        (targets tx s = true -> out = [1; 1]) /\ (forall t o, s = Timeouts t o -> ~ In tx (tl out)).
+Proof.
+  intros now0 c t order c' w out tx Hs Hin now ES0 ES1 k Hk Hnb.
+  destruct (timed_out_is_logged now0 c t order c' w out tx Hs Hin) as (L & _ & NB).
+  apply In_nth_error in L as [j Hj].
+  assert (Hjl: (j < length w)%nat) by (apply nth_error_Some; congruence).
+  apply (outcome_never_reversed now (ES0 ++ w ++ ES1) k (length ES0 + j) tx false).
+  - rewrite nth_error_app2 by lia. replace (length ES0 + j - length ES0)%nat with j by lia.
+    rewrite nth_error_app1 by exact Hjl. exact Hj.
+  - etransitivity; [|exact Hk]. apply bytes_upto_mono. rewrite app_length. lia.
+  - assert (E: skipn (S (length ES0 + j)) (ES0 ++ w ++ ES1) = skipn (S j) w ++ ES1).
+    { rewrite skipn_app. rewrite skipn_all2 by lia. cbn [app].
+      replace (S (length ES0 + j) - length ES0)%nat with (S j) by lia.
+      rewrite skipn_app. replace (S j - length w)%nat with 0%nat by lia. reflexivity. }
+    rewrite E. rewrite forallb_app. rewrite Hnb, andb_true_r.
+    apply forallb_forall. intros e He. rewrite (NB e); [reflexivity|].
+    clear - He. revert He. generalize (S j). intros m. revert w.
+    induction m as [|m IH]; intros w He; [exact He|]. destruct w as [|x w]; [destruct He|].
+    right. apply IH. exact He.
 Qed.
 
 (* Clauses 2-4: what comes back is exactly what the surviving records say, with the votes the
@@ -525,6 +651,27 @@ Proof.
   - exact Hc.
 Qed.
 
+Lemma LInv_abort1 c es tx : LInv c es -> LInv (fst (abort1 c tx)) (es ++ snd (abort1 c tx)).
+Proof.
+  intros HL. pose proof HL as [ND HI]. unfold abort1.
+  destruct (aget (pending c) tx) as [t|] eqn:Et; cbn [fst snd].
+  2:{ rewrite app_nil_r. exact HL. }
+  apply (transfer c es _ _ tx HL); cbn [pending].
+  + repeat constructor.
+  + intros tx' Hne. apply aget_adel_other. exact Hne.
+  + apply NoDupK_adel. exact ND.
+  + intros t' Ht. rewrite aget_adel, N.eqb_refl in Ht. discriminate.
+Qed.
+Lemma LInv_abort_all order : forall c es, LInv c es ->
+  LInv (fst (abort_all c order)) (es ++ snd (abort_all c order)).
+Proof.
+  induction order as [|t r IH]; intros c es HL; cbn [abort_all].
+  - cbn [fst snd]. rewrite app_nil_r. exact HL.
+  - pose proof (LInv_abort1 c es t HL) as H1. destruct (abort1 c t) as [c1 w1]. cbn [fst snd] in H1.
+    pose proof (IH c1 (es ++ w1) H1) as H2. destruct (abort_all c1 r) as [c2 w2]. cbn [fst snd] in *.
+    rewrite app_assoc. exact H2.
+Qed.
+
 Lemma LInv_step now c es s c' w out : LInv c es -> fresh_begin c es s -> step now c s = (c', w, out) ->
   LInv c' (es ++ w).
 Proof.
@@ -630,8 +777,10 @@ Proof.
     split; cbn [pending]; [apply NoDupK_adel; exact ND|].
     intros tx' t' Ht. rewrite aget_adel in Ht. destruct (tx =? tx'); [discriminate|]. apply HI. exact Ht.
   - (* Timeouts *)
-    inversion H; subst. rewrite app_nil_r. split; cbn [pending]; [apply NoDupK_filter; exact ND|].
-    intros tx' t' Ht. apply HI. eapply aget_filter_some; [exact ND|exact Ht].
+    match type of H with context [if ?b then _ else _] => destruct b end.
+    + inversion H; subst. rewrite app_nil_r. exact HL.
+    + pose proof (LInv_abort_all order c es HL) as HA. destruct (abort_all c order) as [c2 w2].
+      inversion H; subst. exact HA.
 Qed.
 
 (* ======================================================================== *)
